@@ -1,14 +1,14 @@
 /-
-Footnote grammar: regression examples for the three defects repaired in /repo (the former witnesses, now stating
-the correct behaviour on the same inputs), and the witness of the clause that is still false of the code
-(each reproduced on the real layout: corpus/C01/footnote_*.json, corpus/C03/footnote_*.json, replays in
+Footnote grammar: regression theorems for the five defects of this grammar repaired in /repo (the former witnesses,
+now stating the correct behaviour on the same inputs); no clause of C01/C03 is known to be false of the code on this
+grammar any more (each input is replayed on the real layout: corpus/C01/footnote_*.json, corpus/C03/footnote_*.json, replays in
 py/harness/pm_foot_corr.py).
 
   fixed 67bf2ca  footnote-policy-block-crash        was `policy_block_crashes : paginateFoot wBlock 20 = none`
   fixed 8db5909  footnote-named-page-lost           was `named_page_loses_footnote` (footnote 6 taken, never rendered)
   fixed 8db5909  footnote-named-page-area-overlap   was `page_bottom_drifts` (page_bottom 24 → 36, line over the area)
   fixed 84e5b27  footnote-area-negative-margin-overflow   was `area_negative_margin_overflows` (emptied area, −4px margin)
-  finding        footnote-area-negative-margin-box        `area_negative_margin_box_overflows` (C03)
+  fixed 2efefde  footnote-area-negative-margin-box        was `area_negative_margin_box_overflows` (non-empty area, −14px)
 -/
 import WpModel.Props.C01Foot
 import WpModel.Props.C03Foot
@@ -108,9 +108,6 @@ theorem page_bottom_no_drift :
     some [([10], none, []), ([26], some 24, [2]), ([10], some 29, [11, 12]), ([], some 39, [13])] := by
   decide +kernel
 
-/-- `wDrift`'s area has bottom decorations and satisfies the (weakened) hypothesis of
-`C03FootGeo.paginate_line_fits`. -/
-example : AreaHyp wDrift.area := ⟨by decide +kernel⟩
 
 /-! ### an emptied footnote area with a negative top margin (repair 84e5b27) -/
 
@@ -139,37 +136,35 @@ example :
     ((reportFootnote c (layoutFootnote c fs f).1 f).areaH, (reportFootnote c (layoutFootnote c fs f).1 f).pageBottom) =
       (none, 46) := by decide +kernel
 
-/-! ### still false of the code: a non-empty footnote area whose margin box has a negative height -/
+/-! ### a non-empty footnote area whose margin box has a negative height (repair 2efefde) -/
 
 /-- 7 lines of 10px on a 46px page; line 0 calls a 10px footnote, which fits; the `@footnote` area has
-`margin-top: -14px`, more than the content is high: the margin box of the area is −4px high,
-`_update_footnote_area` subtracts −4 from `context.page_bottom` (46 → 50) and line 4 (40 … 50) is accepted on page 1
-(the footnote body itself is drawn at 36 … 46, over lines 3 and 4). -/
+`margin-top: -14px`, more than the content is high: the margin box of the area is −4px high. Before the repair
+`_update_footnote_area` subtracted −4 from `context.page_bottom` (46 → 50) and line 4 (40 … 50) was accepted on
+page 1. -/
 def wNegBox : FDoc :=
   { exDocOf 46 [.para 1 7 10 exSt [⟨0, 1, 1, 10, .auto⟩]] with area := { exArea with mt := -14 } }
 
-/-- **W (C03)**: a line that is not the first of its page ends below the page box (50 > 46) while the page shows a
-footnote area. The hypothesis `AreaHyp` of `C03FootGeo.paginate_line_fits` (decorations sum ≥ 0) is necessary. -/
-theorem area_negative_margin_box_overflows :
+/-- **Regression (C03, was W `area_negative_margin_box_overflows`)**: what the area takes from the page is clamped
+at 0, `page_bottom` stays 46, four lines (ending at 40) are placed on page 1 and line 4 goes to page 2 (per page:
+line bottoms, top of the area's margin box, footnotes rendered). -/
+theorem area_negative_margin_box_clamped :
     (paginateFoot wNegBox 20).map (fun ps => ps.map (fun p =>
       ((placedLines p.page.root true (C03FootGeo.pageSourceF wNegBox p).erase).map (fun l => l.y + l.lineH),
        p.area.map (fun a => a.y), shownFids p))) =
-    some [([10, 20, 30, 40, 50], some 50, [1]), ([10, 20], none, [])] ∧ wNegBox.pageH = 46 := by
+    some [([10, 20, 30, 40], some 50, [1]), ([10, 20, 30], none, [])] ∧ wNegBox.pageH = 46 := by
   constructor
   · decide +kernel
   · rfl
 
-/-- Everything but `AreaHyp` holds of `wNegBox`. -/
-example : DecoOk wNegBox.root.erase ∧ HeightsOk wNegBox.root ∧ ¬ AreaHyp wNegBox.area := by
-  refine ⟨?_, ?_, ?_⟩
+/-- `wNegBox` satisfies every hypothesis `C03FootGeo.paginate_line_fits` still has (the one on the `@footnote` style
+is gone), so the theorem applies to it. -/
+example : DecoOk wNegBox.root.erase ∧ HeightsOk wNegBox.root := by
+  refine ⟨?_, ?_⟩
   · simp [wNegBox, exDocOf, FootBox.erase, eraseList, DecoOk, DecoOkList, PStyle.DecoOk, exSt]
     decide +kernel
   · simp only [wNegBox, exDocOf, HeightsOk, HeightsOkList, List.mem_cons, List.not_mem_nil, or_false,
       forall_eq_or_imp, forall_eq, and_true]
-    decide +kernel
-  · intro h
-    have := h.deco
-    revert this
     decide +kernel
 
 end Wp.C01Foot
